@@ -3,6 +3,7 @@
   Sections of a request are separated by `;`, tokens by blanks.  Errors are `ERR <kind>`.
 -/
 import CvModel
+import CvGen
 open Cv
 
 structure DState where
@@ -51,7 +52,7 @@ def parseStop (s : String) : Option (Option (Nat → List Nat → Bool)) :=
   | ["size", k] => k.toNat?.map fun k => some fun _ l => decide (l.length ≥ k)
   | _ => none
 
-def handle (d : DState) (line : String) : DState × String :=
+def handle0 (d : DState) (line : String) : DState × String :=
   match secs line with
   | hd :: rest =>
     match toks hd, rest with
@@ -110,6 +111,105 @@ def handle (d : DState) (line : String) : DState × String :=
       | _, _, _ => (d, "ERR parse")
     | _, _ => (d, "ERR unknown-op")
   | [] => (d, "ERR empty")
+
+
+def wordsOf (s : String) : Option (List (BitVec 64)) := (nats s).map fun l => l.map (BitVec.ofNat 64)
+def showWords (l : List (BitVec 64)) : String := showNats (l.map BitVec.toNat)
+
+def showStmt (s : Codec.Stmt) : String :=
+  s!"{s.src} {s.dst} {s.mask.toNat} {s.shl} {s.shr} {match s.post with | some m => toString m.toNat | none => "-"}"
+
+def parseStmt (s : String) : Option Codec.Stmt :=
+  match toks s with
+  | [a, b, m, l, r, p] =>
+    match a.toNat?, b.toNat?, m.toNat?, l.toNat?, r.toNat? with
+    | some a, some b, some m, some l, some r =>
+      let post : Option (Option (BitVec 64)) := if p == "-" then some none else p.toNat?.map fun v => some (BitVec.ofNat 64 v)
+      post.map fun post => { src := a, dst := b, mask := BitVec.ofNat 64 m, shl := l, shr := r, post := post }
+    | _, _, _, _, _ => none
+  | _ => none
+
+/-- kernel operations (codec, hash, permutation helpers): stateless -/
+def handleKernel (line : String) : Option String :=
+  match secs line with
+  | hd :: rest =>
+    match toks hd, rest with
+    | ["enc", w, n], [s] =>
+      match w.toNat?, n.toNat?, nats s with
+      | some w, some n, some s =>
+        if Codec.encodable w n s && decide (1 ≤ w) && decide (w ≤ 64) then some (showWords (Codec.encode w n s)) else some "ERR not-encodable"
+      | _, _, _ => some "ERR parse"
+    | ["dec", w, n], [e] =>
+      match w.toNat?, n.toNat?, wordsOf e with
+      | some w, some n, some e => some (showNats (Codec.decode w n e))
+      | _, _, _ => some "ERR parse"
+    | ["autowidth", m], _ => m.toNat?.map fun m => toString (Codec.autoWidth m)
+    | ["prog.compile", w, n], [p] =>
+      match w.toNat?, n.toNat?, nats p with
+      | some w, some n, some p => some (" | ".intercalate ((Codec.compile p w n).map showStmt))
+      | _, _, _ => some "ERR parse"
+    | ["prog.check", w, n], p :: stmts =>
+      match w.toNat?, n.toNat?, nats p, stmts.mapM parseStmt with
+      | some w, some n, some p, some prog =>
+        some (if Codec.checkProg prog p w n (Codec.encLen w n) then "1" else "0")
+      | _, _, _, _ => some "ERR parse"
+    | ["prog.eval", len], x :: stmts =>
+      match len.toNat?, wordsOf x, stmts.mapM parseStmt with
+      | some len, some x, some prog => some (showWords (Codec.evalProg prog len x))
+      | _, _, _ => some "ERR parse"
+    | ["prog.eval1d"], x :: stmts =>
+      match wordsOf x, stmts.mapM parseStmt with
+      | some [x], some prog => some (toString (Codec.evalProg1d prog x).toNat)
+      | _, _ => some "ERR parse"
+    | ["prog.spec", w, n], [p, x] =>
+      match w.toNat?, n.toNat?, nats p, wordsOf x with
+      | some w, some n, some p, some x => some (showWords (Codec.permuteBits p w n (Codec.encLen w n) x))
+      | _, _, _, _ => some "ERR parse"
+    | ["hash.mix"], [x] => (wordsOf x).map fun l => showInts (l.map fun w => Hash.key (Hash.evalMix Gen.mixSteps w))
+    | ["hash.comb", seed], rows =>
+      match seed.toInt?, rows.mapM wordsOf with
+      | some seed, some rows =>
+        some (showInts (rows.map fun r => Hash.key (Hash.combine Gen.mixSteps Gen.combinerMul (BitVec.ofInt 64 seed) r)))
+      | _, _ => some "ERR parse"
+    | ["hash.dot"], vec :: rows =>
+      match ints vec, rows.mapM ints with
+      | some vec, some rows =>
+        some (showInts (rows.map fun r => Hash.key (Hash.dot (vec.map (BitVec.ofInt 64)) (r.map (BitVec.ofInt 64)))))
+      | _, _ => some "ERR parse"
+    | ["hash.check"], _ => some (if Gen.fitsGrammar && Hash.checkMix Gen.mixSteps Gen.mixInvs then "1" else "0")
+    | ["perm.inverse"], [p] => (nats p).map fun p => showNats (Perm.inverse p)
+    | ["perm.compose"], [p, q] =>
+      match nats p, nats q with
+      | some p, some q => some (showNats (Perm.compose p q))
+      | _, _ => some "ERR parse"
+    | ["perm.isperm"], [p] => (nats p).map fun p => if Perm.isPerm p then "1" else "0"
+    | ["perm.transposition", n, i, j], _ =>
+      match n.toNat?, i.toNat?, j.toNat? with
+      | some n, some i, some j => some (match Perm.transposition n i j with | some p => showNats p | none => "ERR assert")
+      | _, _, _ => some "ERR parse"
+    | ["perm.fromcycles", n, off], cycles =>
+      match n.toNat?, off.toInt?, cycles.mapM ints with
+      | some n, some off, some cs => some (match Perm.fromCycles n cs off with | some p => showNats p | none => "ERR assert")
+      | _, _, _ => some "ERR parse"
+    | ["perm.cyclelens", n], [lens] =>
+      match n.toNat?, nats lens with
+      | some n, some lens =>
+        some (match Perm.permutationsWithCycleLengths n lens with
+          | some ps => showLL ps
+          | none => "ERR assert")
+      | _, _ => some "ERR parse"
+    | ["perm.partition"], [lens, els] =>
+      match nats lens, nats els with
+      | some lens, some els => some (showNats (Perm.partitionToPermutation lens els))
+      | _, _ => some "ERR parse"
+    | ["perm.cycletype"], [p] => (nats p).map fun p => showNats (Perm.cycleType p)
+    | _, _ => none
+  | [] => none
+
+def handle (d : DState) (line : String) : DState × String :=
+  match handleKernel line with
+  | some r => (d, r)
+  | none => handle0 d line
 
 partial def loop (h : IO.FS.Stream) (out : IO.FS.Stream) (d : DState) : IO Unit := do
   let line ← h.getLine
